@@ -243,6 +243,10 @@ fn i8_one<A: I8Arith>(name: &str, a: &mut A, case: &I8Case, p: &mut Probe) -> Ch
     }
     let mut vars = vars0.clone();
     let mut chk: Vec<SentMessage<i8>> = olds.iter().enumerate().map(|(i, &v)| SentMessage { dest: 2 * i + 1, value: v }).collect();
+    if case.msgs.len() % 2 == 0 {
+        // the flooding check rule on the same object first (the other entry point shares its scratch space)
+        super::impls::flooding_warm(a, &case.msgs.iter().map(|&x| f64::from(x) / 8.0).collect::<Vec<f64>>());
+    }
     if case.msgs.len() >= 3 {
         // an unrelated (usually larger) row processed earlier by the same arithmetic object:
         // scratch state must not leak into the next update
@@ -361,7 +365,9 @@ pub struct FCase {
 }
 
 fn fval(range: f64) -> impl Strategy<Value = f64> {
-    prop_oneof![6 => -range..range, 1 => Just(0.0), 1 => -0.01f64..0.01, 1 => (-range * 10.0)..(range * 10.0)]
+    // a fifth of the values from a coarse grid of halves, so that equal magnitudes (ties at the
+    // smallest magnitude, hard-decision style LLRs) occur within one check
+    prop_oneof![6 => -range..range, 1 => Just(0.0), 1 => -0.01f64..0.01, 1 => (-range * 10.0)..(range * 10.0), 2 => (-6i32..=6).prop_map(|k| f64::from(k) * 0.5)]
 }
 
 pub fn f_strategy(_t: Tier) -> BoxedStrategy<FCase> {
@@ -400,7 +406,10 @@ fn f_one<F: Fl, A: FArith<F>>(name: &str, a: &mut A, case: &FCase, p: &mut Probe
         ensure!(err <= tol, "var-rule-msg", "{name}: message to check {i} is {:?}, total minus own contribution is {want:e} (tol {tol:e})", o.unwrap());
     }
     ensure!(a.input_llr_quantize(case.input.0) == F::from64(case.input.0), "float-quantize", "{name}: input_llr_quantize is not the plain conversion");
-    // --- layered primitive
+    // --- layered primitive (in half of the cases after the flooding check rule on the same object)
+    if case.msgs.len() % 2 == 0 {
+        super::impls::flooding_warm(a, &case.msgs.iter().map(|x| x.0).collect::<Vec<f64>>());
+    }
     let d = case.olds.len();
     let olds: Vec<F> = case.olds.iter().map(|x| F::from64(x.0)).collect();
     let nvars = 2 * d + 1;
